@@ -40,7 +40,7 @@ ASSUMPTIONS = [
     'in-memory-vs-file entry points are judged only when the written reference reads back (pandas) with the same dtypes and values as the reference frame',
     'float differences are planted on a decimal grid (0.4 or 2 units of the last compared place) so that rounding is unambiguous',
 ]
-REQUIRED_MONITORS = ['history:rows_and_columns_reordered', 'inputs:windows_of_one_parent', 'history:precision_then_default', 'inputs:relabelled_index', 'history:same_reference_reused', 'oracle:must-pass', 'oracle:must-fail', 'failure:message_checked', 'inputs:hashed'] + \
+REQUIRED_MONITORS = ['inputs:wide_table', 'history:rows_and_columns_reordered', 'inputs:windows_of_one_parent', 'history:precision_then_default', 'inputs:relabelled_index', 'history:same_reference_reused', 'oracle:must-pass', 'oracle:must-fail', 'failure:message_checked', 'inputs:hashed'] + \
     ['entry:' + e for e in sorted(set(ENTRIES))] + ['reach:types_match', 'reach:single_col_diffs', 'reach:resolve_option_flag']
 REQUIRED_CLASSES = ['mut=%s' % m for m in sorted(set(MUTS))] + ['mut=key_crosses_condition'] + ['kind=%s' % k for k in KINDS]
 
@@ -541,6 +541,29 @@ def run_shard(ctx):
             run_case(ctx, first)
             run_case(ctx, second)
             ctx.rec.event('history:precision_then_default')
+        if i % 50 == 9:
+            # a wide table (around and beyond 128 and 256 columns) in which ONE record is off in many columns at once
+            rng = ctx.rng
+            w = rng.choice([127, 128, 129, 160, 255, 256, 257, 300])
+            n = rng.choice([2, 3, 5])
+            kd = rng.choice(['int64', 'float64'])
+            cols = [{'name': 'k', 'kind': 'int64', 'values': list(range(n)), 'nulls': 'none'}]
+            for j in range(w):
+                vals = [rng.randint(-99, 99) for _ in range(n)]
+                cols.append({'name': 'w%03d' % j, 'kind': kd, 'values': [float(v) for v in vals] if kd == 'float64' else vals, 'nulls': 'none'})
+            base = {'cols': cols, 'nrows': n}
+            act = copy.deepcopy(base)
+            r_ = rng.randrange(n)
+            k_ = min(w, rng.choice([w, w, 128, 129, 255, 256]))
+            changed = sorted(rng.sample(range(1, w + 1), k_))
+            for j in changed:
+                act['cols'][j]['values'][r_] += 1
+            plain = {'check_data': None, 'check_types': None, 'check_order': None, 'type_matching': None, 'sortby': None,
+                     'condition': None, 'precision': rng.choice([None, 0, 6])}
+            run_case(ctx, {'base': base, 'actual': act, 'mut': {'kind': 'value', 'col': cols[changed[0]]['name'], 'row': r_, 'n_columns_changed': k_},
+                           'opts': plain, 'entry': rng.choice(['check_dataframe', 'assertDataFramesEqual', 'assertDataFrameCorrect-parquet', 'assertOnDisk-parquet']),
+                           'sequel': 'wide-table-one-record-off'})
+            ctx.rec.event('inputs:wide_table')
     for k, v in _counter.items():
         ctx.rec.event('reach:' + k, v)
     _counter.clear()
